@@ -200,6 +200,20 @@ def correspondence(ctx, model_available=True):
                                       "init": t})
                 break
 
+    # (e) the built-in library's Python helpers with the frame at the top of memory
+    import stdlibcases as sc
+    dist["library_calls_at_top_of_memory"] = 0
+    for f, args in [("div", [7, 2]), ("mod", [7, 2]), ("printint", [5]), ("printbool", [1]), ("putchar_ord", [65]), ("not", [0])]:
+        text = sc.program("stack", f, args, {k: k for k in range(1, 11)}).replace("CBON()\n", "CBON()\nSET(R15, 0x%04x)\n" % rng.choice([0xFFFB, 0xFFFC, 0xFFFD, 0xFFFE, 0xFFFF]), 1)
+        r = sc.run(text)
+        dist["library_calls_at_top_of_memory"] += 1
+        if "raise" in r:
+            spec_failures.append({"what": "library call %s with the stack at the top of memory: %s" % (f, r["raise"]), "program": text})
+            continue
+        bad = wf_snapshot(snapshot_vm(r["vm"]))
+        if bad:
+            spec_failures.append({"what": "after the library call %s with the stack at the top of memory: %s" % (f, bad), "program": text})
+
     # (d) debugger histories that write state: oracle on the real shell, and the session model
     import dbgprops as dp
     dsessions = debugger_histories(rng, 30 if quick else 400, spec_failures, dist)
